@@ -327,6 +327,7 @@ pub fn walk_case(files: &Files, with_positions: bool) -> Vec<(&'static str, Json
     vec![
         ("op", Json::s("walk")),
         ("files", files_json(files)),
+        ("lc", lc_of(files)),
         ("positions", Json::Bool(with_positions)),
         ("impl", impl_walk(files, with_positions)),
     ]
@@ -1115,8 +1116,23 @@ pub fn run(suite: &str, thorough: bool, seed: u64, shard: usize, nshards: usize,
                         how = "re-layout other files";
                     }
                     0 => {
-                        // add an unrelated file
-                        let d = gen::gen_document(&mut r, &cfg);
+                        // add an unrelated file — one time in two its key is a NEAR MISS of something the target imports:
+                        // the import's path with a package prefix in front (`x.a.b.C` for `a.b.C`) or without its first
+                        // segment (`b.C`); neither is what the target imports
+                        let mut d = gen::gen_document(&mut r, &cfg);
+                        let timps: Vec<Vec<String>> = proj[t].1.imports.iter().filter(|i| i.len() > 1).cloned().collect();
+                        if !timps.is_empty() && r.chance(1, 2) {
+                            let imp = r.pick(&timps).clone();
+                            let n = imp.len();
+                            d.item.name = imp[n - 1].clone();
+                            d.package = if n > 2 && r.chance(1, 2) {
+                                imp[1..n - 1].to_vec()
+                            } else {
+                                let mut v = vec![(*r.pick(&["x", "com", "zz"])).to_owned()];
+                                v.extend(imp[..n - 1].iter().cloned());
+                                v
+                            };
+                        }
                         proj2.push(("added".to_owned(), d));
                         how = "add file";
                     }
@@ -1309,7 +1325,10 @@ pub fn run(suite: &str, thorough: bool, seed: u64, shard: usize, nshards: usize,
                 let mut r = Rng::new(s);
                 let cfg = gen::DocCfg::default();
                 let proj = gen::gen_project(&mut r, &cfg);
-                let files = render_project(&proj, LayoutStyle::Plain, &mut r);
+                // one project in three in a wild layout: types, names and members spread over lines, multi-byte comments
+                // inside them (a serialised position must not assume that a construct stays on its line)
+                let style = if r.chance(1, 3) { LayoutStyle::Wild } else { LayoutStyle::Plain };
+                let files = render_project(&proj, style, &mut r);
                 em.case(s, vec![("op", Json::s("serde")), ("files", files_json(&files)), ("impl", impl_serde(&files))]);
             }
             // the 17 categories and every direction / oneway combination once
@@ -1661,6 +1680,16 @@ pub fn run(suite: &str, thorough: bool, seed: u64, shard: usize, nshards: usize,
                             // a junk prefix that could begin a member, directly followed by a complete
                             // member: recovery resumes on the unexpected token without dropping anything
                             let starts = ["foo", "Bar", "int", "String", "x1", "a.B", "List"];
+                            if !is_enum && r.chance(1, 3) {
+                                // the complete member begins with a RAW `List` / `Map`: validation has something of its own to
+                                // say about exactly the token the syntax Error sits on
+                                let raw = *r.pick(&["List", "Map"]);
+                                toks = if matches!(d.item.kind, doc::ItemKind::Interface) {
+                                    vec![raw.to_owned(), "g".to_owned(), "(".to_owned(), ")".to_owned()]
+                                } else {
+                                    vec![raw.to_owned(), "y".to_owned()]
+                                };
+                            }
                             for _ in 0..r.range(1, 2) {
                                 toks.insert(0, (*r.pick(&starts)).to_owned());
                             }
